@@ -274,8 +274,9 @@ CLAIMS = {
              "candidate, as in std::string. compare() (15 overloads) is decided as sign of memcmp over the common length, "
              "else sign of the length difference. Simple observers (length/empty/c_str/data/str/at/[]/front/back/substr/copy) "
              "and iteration (begin/rbegin positions, exact stepping of ++/-- to the neighbouring index resp. the end marker, "
-             "dereference at the index) are proved against exact post-conditions. Not decided: sprintf's text, std::string-iterator overloads, the four "
-             "( const char*, pos, count) character-set overloads (nested loops).",
+             "dereference at the index) are proved against exact post-conditions. The four ( const char*, pos, count) "
+             "character-set overloads, whose membership test is an inner loop, are decided with the same proof applied "
+             "to the inner loop. Not decided: sprintf's text, std::string-iterator overloads.",
         note="trusted base: clang front end, extractor, cv/lin.py + cv/bounds.py + cv/boolshape.py, the std::string "
              "specification table in cv/props/c11.py; sources do not alias the destination",
         also=("engine B (boolshape.py)",),
